@@ -163,5 +163,24 @@ fn main() {
         }
         t
     });
+    // S10: delicate roundings found by the model.  For every radicand of the set the model scans the first 150 digits
+    // of the true root for a guard-digit run (0000, 9999, 5000, 4999 after the p-th digit) and the subject is called
+    // at exactly those precisions, under every mode and through every entry point.  Radicands: perfect powers moved
+    // by a power of ten that is NOT a multiple of 2 (r^2 * 10^j: digits of a power, irrational root), and every small
+    // integer at every residue of the scale.
+    let dk: usize = tier.pick(6000, 60_000);
+    run.bound("S10_delicate", format!("r^2 * 10^j for r = 1..={}, j not divisible by 2, and n = 2..={} at scales 0..2; precisions 1..=150 with a 4-digit guard run", dk, dk + 1));
+    run.par("S10 model-located delicate roundings", dk, |i| {
+        let mut t = Tally::default();
+        let r = num_bigint::BigInt::from(i as u64 + 1);
+        let pw = &r * &r;
+        for s in [1i128, -1, 3] {
+            delicate_sweep(&run, 2, &Dec { n: pw.clone(), s }, 150, &mut t);
+        }
+        for s in 0..2i128 {
+            delicate_sweep(&run, 2, &Dec { n: r.clone() + 1, s }, 150, &mut t);
+        }
+        t
+    });
     run.finish();
 }
